@@ -171,6 +171,9 @@ class ScheduledTraceEvent(AppTraceEvent):
 
     @property
     def event_data(self):
+        if self.why is None:
+            # from_data decodes event data without ':' as why=None.
+            return self.where
         return '%s:%s' % (self.where, self.why)
 
 
